@@ -950,7 +950,11 @@ func (p *c21Prop) warmUp() {
 }
 
 func (p *c21Prop) Run(seed uint64, tier string) *Result {
-	p.warmUp()
+	if !c21Warm {
+		p.warmUp()
+		// the warm-up's map-order events must not be booked on the first seed of the process
+		simrt.ResetStats()
+	}
 	c := p.genCase(seed, tier)
 	v, res := p.exec(c)
 	if v != nil {
